@@ -10,7 +10,7 @@ CHECKS = {
              "blocks have no effect, unknown/unmatched/unclosed directives are errors; segmentation is lossless and lines "
              "without macro words are unchanged. The model is tied to the code by running it (cbdriver c17) and the real "
              "Preprocessor in-process on the same inputs: every directive sequence up to length 4 (5 thorough) over 3 "
-             "names x all -D subsets up to renaming, malformed directives, random nested trees, macro lines.",
+             "names x all -D subsets up to renaming, malformed directives, random nested trees, macro lines. Added later: the model's macro expansion carries the set of macros being expanded (a macro is not expanded again inside its own expansion); cyclic tables and string literals ending in an escaped backslash are generated.",
         note="Trusted: Lean kernel (axioms propext/Classical.choice/Quot.sound only), the differential harness "
              "(h_preproc.cpp) and its generators. The positional multi-pass expandMacros is not mirrored line by line: it "
              "is compared with the token-level specification on generated lines only. __DATE__/__TIME__ not exercised.",
@@ -123,7 +123,7 @@ CHECKS = {
              "one with N fraction digits (within half a unit of the last digit), exact values are printed exactly, ties go to "
              "the even neighbour, non-ties to the strictly nearer one, rounding is monotone, exactly N fraction digits are "
              "printed and the text reads back as the rounded value. Tie: {x:.Nf}, N = 0..12, on doubles from a fixed list "
-             "(binary ties, decimal pseudo-ties, both signs) and random dyadic / decimal literals vs the model.",
+             "(binary ties, decimal pseudo-ties, both signs) and random dyadic / decimal literals vs the model. Added later: conversion-looking text as last println argument, print / println of doubles without format against C's %.15g (calibration, Python oracle).",
         note="Calibrated to the implementation where the property is silent: println writes arguments one at a time; a "
              "sole literal is printed raw; surplus printf arguments are appended space-separated. Not generated: double "
              "quotes/backslashes in literals (lexer has no escaped quote), too few printf arguments, the `-` flag, %x/%o/%u, "
@@ -139,7 +139,7 @@ CHECKS = {
              "statement, loop and (recursive) call of every program at every fuel (instance of allPres); const parameters "
              "are bound as const cells. Tie: the full matrix const kind (local/global/parameter scalars of 9 types, "
              "local/global arrays, struct) x mutation path, pointer/reference programs judged by the property's own wording, "
-             "and random const-rich core programs, model vs interpreter.",
+             "and random const-rich core programs, model vs interpreter. Added later: const arrays of 8 element types in 1-D / 2-D under 5 store forms, const reference parameters, const struct arrays, pointers to const that travel through function results and copies, const arrays passed to writing array parameters.",
         note="Pointers and reference parameters are not in the Lean model (their cases have the direct oracle 'rejected'); "
              "the invariant for const LOCALS is proved per store and per call (C08 call_preserves_caller_locals), not as "
              "one induction. Listed findings: ++/-- on const, &const into a mutable pointer, const via T&, member store "
@@ -190,7 +190,7 @@ CHECKS = {
              "if-chain of FFIManager::callFunction on every run: ffiTable_rows_ok, ffiTable_no_overlap. Tie: translator + "
              "an echo library compiled by the check: every supported signature x boundary values x every argument position, "
              "qualified and unqualified calls, 64-bit results; unsupported signatures must be reported, exit 1, and must not "
-             "enter the native function (marker files).",
+             "enter the native function (marker files). Added later: foreign calls nested in arguments and a second library with functions of the same names.",
         note="Trusted: translator tools/translate/ffi.py, gcc, the SysV ABI, dlopen. Double equality is evaluated by the "
              "interpreter. Listed finding: void functions with unsupported parameters are silently skipped.",
         technique="Lean 4 proof (table laws) + translator-regenerated table with decide obligations + exhaustive echo suite",
@@ -220,7 +220,7 @@ CHECKS = {
              "Tie: cbdriver c07 is the shadow heap; a fixed object graph (2 structs with scalar, nested-struct and array "
              "members, struct, struct array, 2 int arrays, scalar, struct pointer, int pointer); matrix of 40 operation "
              "kinds alone + random histories of 3..14 operations; after every operation every cell is read through 12 read "
-             "kinds (plain, ->, (*p)., *q, interpolation, getters, reference/array/by-value parameters).",
+             "kinds (plain, ->, (*p)., *q, interpolation, getters, reference/array/by-value parameters). Added later: a three-level object, ++/-- through every access path, and suite typed-members (a struct with string / double / long / bool members, 14 operation kinds, 5 read paths) against a shadow kept by the harness.",
         note="Specification-level model (the interpreter's two struct representations and their sync points are not "
              "mirrored); the tie is differential. Access forms the interpreter rejects with an error are not generated. 6 "
              "listed findings on the pinned tree; their operation kinds are excluded from the random histories and checked "
@@ -235,7 +235,7 @@ CHECKS = {
              "dropped). Tie: the hypothesis is OBSERVED on the real parser through hook H1 (parse_iter trace must increase "
              "strictly) and crashes / invalid memory accesses / undefined operations are OBSERVED under ASan+UBSan in "
              "parse-only mode on the repository's .cb files, token-level mutants, ~260 synthetic nesting inputs up to 8 KiB, "
-             "random bytes, plus full execution of generated pointer-free core programs.",
+             "random bytes, plus full execution of generated pointer-free core programs. Added later: type nesting in every declaration position, wide / self-referential / doubling macros, random directive sequences with unbalanced conditionals, inputs for the lexers not fed by the preprocessor (interpolation segments, imported modules, --no-preprocess), executed long / deep well-formed programs and print statements with odd formats; the parse-loop progress measure is the lexer offset per parser instance.",
         note="Not a proof of memory safety or of the absence of signals: those are runtime facts the model cannot exhibit; "
              "they are checked by sanitizers on the explored inputs only. Termination inside a single parse routine and of the "
              "lexer is bounded by the run's timeout, not by a theorem; the preprocessor's termination is covered by the total "
@@ -284,7 +284,7 @@ CHECKS = {
              "event-by-event against hook H3 by C15; (B) 1-3 tasks with parameters and locals whose structured bodies place "
              "`yield` by 15 features (top level, in for / while / if / else / block, nested loops, same counter name, changing "
              "condition, early return ...): each task's projection of stdout and its awaited result must equal a direct "
-             "sequential evaluation of its body (running it alone).",
+             "sequential evaluation of its body (running it alone). Added later: several tasks of the same function, assignments to the task's own parameters, long-typed tasks, tasks calling ordinary functions that contain loops.",
         note="The theorems are about the modelled fragment (suspension at top-level statements and top-level loop iterations, "
              "spawn DAGs, awaits of own children); suite B carries the rest of the quantifier and finds 3 classes of violations "
              "on the pinned tree (listed findings: yield in nested blocks skips the rest of the block, loop state across "
@@ -318,7 +318,7 @@ CHECKS = {
              "functions with statics, constants, struct+interface+impl, enums, typedefs, each exported or hidden; chains and "
              "diamonds): the program using every item the model says is visible must print what the single-file inlined "
              "program prints, for 3 orders / duplications of the import list; every item the model says is invisible must be "
-             "rejected.",
+             "rejected. Added later: qualified calls m.f, self-imports and import cycles, exported global variables, selective imports and a re-import after the module's state changed.",
         note="Names are unique across modules (DisjointExports hypothesis). Selective imports and aliases are not generated. "
              "Listed finding: a module's own imports are not processed (transitive imports).",
         technique="Lean 4 proof (mechanism model of the import table) + differential correspondence on generated module graphs (model decides visibility, the inlined single-file program is the output oracle)",
@@ -333,7 +333,7 @@ CHECKS = {
              "dereference sites map to DivisionByZeroError / IndexOutOfBoundsError / NullPointerError. Tie: generated programs: "
              "enum shapes x arm lists (exhaustive for 3 variants, <= 3 arms) x 9 transport modes x boundary payloads; ? chains "
              "and nests to depth 5 with the failing link at every position; random core expressions under try/checked with "
-             "CbRef deciding value or error class.",
+             "CbRef deciding value or error class. Added later: unit-only and explicit-valued C-style enums, arms left by break / continue / return, enum-valued payloads with bindings that shadow a variable in scope.",
         note="Enum value transport is modelled as the identity (payload_preserved is definitional); the tie carries that "
              "part. Payload types int/long/string only. 8 listed findings on the pinned tree (long payload beyond int, empty "
              "string payload, constructor assignment ignored, unit variants lost, constructor argument rejected, string lost "
